@@ -124,5 +124,26 @@ def run(ck):
     ck.require(ntops, "inet_ntop not found")
     for e in ntops:
         ck.ob("C19-R3", "inet_ntop in %s" % e.func.base.replace(P, ""), True, e.loc, e.func, "binary-to-text through inet_ntop")
+    # inet_ntop is given room for the longest text of its family and never more than its destination holds
+    import re as _re
+    for e in ntops:
+        a = e.get("args") or []
+        dst_ty = (a[2].get("ty") or "") if len(a) > 2 else ""
+        m_ = _re.search(r"\[(\d+)\]", dst_ty)
+        cap = int(m_.group(1)) if m_ else None
+        szt = (a[3].get("t") or "") if len(a) > 3 else ""
+        szc = a[3].get("const") if len(a) > 3 else None
+        fam = a[0].get("const") if a else None
+        need = 16 if fam == 2 else (46 if fam == 10 else 16)
+        if isinstance(szc, int):
+            size = szc
+        elif szt.replace(" ", "") == "sizeof(%s)" % (a[2].get("t") or ""):
+            size = cap
+        else:
+            size = None
+        ok = size is not None and cap is not None and need <= size <= cap
+        ck.ob("C19-R3", "inet_ntop-size in %s/%s" % (e.func.base.replace(P, ""), "v4" if need == 16 else "v6"), ok, e.loc, e.func,
+              "destination %s, size argument %s (needs %d)" % (dst_ty, szt, need) if ok else
+              "size argument `%s` does not give inet_ntop the %d bytes the longest literal needs (destination %s): long addresses fail to print" % (szt, need, dst_ty))
     others = [e for f in prog.funcs.values() for e in f.calls(lambda e: (e.get("callee") or "") in ("inet_addr", "inet_aton", "inet_ntoa")) if in_scope(f)]
     ck.ob("C19-R3", "no-legacy-converters", not others, others[0].loc if others else ai.loc, others[0].func if others else ai, "inet_addr/inet_aton/inet_ntoa are not used", nontrivial=False)
